@@ -2,6 +2,7 @@ package main
 
 import (
 	"fmt"
+	"sort"
 	"go/constant"
 	"go/token"
 	"go/types"
@@ -48,6 +49,7 @@ type QHyp struct {
 	done   map[string]bool
 	text   string
 	seq    int
+	negate bool // the hypothesis is "not exists vars. body": instances assert the negated body
 }
 
 type readRec struct {
@@ -345,10 +347,18 @@ func (e *Env) binary(x *EBinary) *SVal {
 		}
 		return mkBool(sImp(lt, r.evalBool(x.R)))
 	case "<==>":
+		if e.mode != 0 && e.pol != 0 && e.g.inQuant == 0 && (e.hasQuant(x.L, 0) || e.hasQuant(x.R, 0)) {
+			return e.iffSplit(x.L, x.R)
+		}
 		sub := *e
 		sub.pol = 0
 		return mkBool(sEq(sub.evalBool(x.L), sub.evalBool(x.R)))
+	case "==":
+		if e.mode != 0 && e.pol != 0 && e.g.inQuant == 0 && (e.hasQuant(x.L, 0) || e.hasQuant(x.R, 0)) {
+			return e.iffSplit(x.L, x.R)
+		}
 	}
+	outer := e
 	if e.pol != 0 {
 		sub := *e
 		sub.pol = 0
@@ -358,7 +368,12 @@ func (e *Env) binary(x *EBinary) *SVal {
 	a, b = e.unify(a, b)
 	// constant folding of untyped operands is handled by unify -> int
 	if a.K == KSlice && b.K == KSlice && (x.Op == "==" || x.Op == "!=") {
-		t := e.sliceEq(a, b)
+		pe := *outer
+		if x.Op == "!=" {
+			pe.pol = -outer.pol
+			pe.noInst = true
+		}
+		t := pe.sliceEq(a, b)
 		if x.Op == "!=" {
 			t = sNot(t)
 		}
@@ -434,17 +449,86 @@ func (e *Env) binary(x *EBinary) *SVal {
 	return r
 }
 
+// hasQuant: does the (boolean) expression contain a quantifier, directly or through pure functions?
+func (e *Env) hasQuant(x Expr, depth int) bool {
+	if depth > 6 {
+		return false
+	}
+	switch x := x.(type) {
+	case *EQuant:
+		return true
+	case *EUnary:
+		return x.Op == "!" && e.hasQuant(x.X, depth)
+	case *EBinary:
+		switch x.Op {
+		case "&&", "||", "==>", "<==>":
+			return e.hasQuant(x.L, depth) || e.hasQuant(x.R, depth)
+		}
+		return false
+	case *ECall:
+		if id, ok := x.Fun.(*EIdent); ok {
+			switch id.Name {
+			case "old", "pre":
+				return e.hasQuant(x.Args[0], depth)
+			}
+			if pf := e.g.P.pureFn(e.pkg, id.Name); pf != nil && !pf.Uninterp && pf.Result != nil && pf.Result.Name == "bool" {
+				if pf.Opaque {
+					return true
+				}
+				return e.hasQuant(pf.Body, depth+1)
+			}
+		}
+	}
+	return false
+}
+
+func isBasicTypeName(n string) bool {
+	switch n {
+	case "int", "int8", "int16", "int32", "int64", "uint", "uint8", "uint16", "uint32", "uint64", "uintptr", "byte", "bool", "string":
+		return true
+	}
+	return false
+}
+
+// iffSplit evaluates A <==> B as (A ==> B) && (B ==> A) so that quantifiers on either side get a polarity.
+func (e *Env) iffSplit(l, r Expr) *SVal {
+	a := &EBinary{"==>", l, r}
+	b := &EBinary{"==>", r, l}
+	lt := e.evalBool(a)
+	rt := e.evalBool(b)
+	return mkBool(sAnd(lt, rt))
+}
+
+var sliceEqExpr Expr
+
+// sliceEq: element-wise equality of two slices, expressed in the contract language so that its
+// quantifier takes part in skolemisation / instantiation like any other.
 func (e *Env) sliceEq(a, b *SVal) string {
-	g := e.g
 	ea := a.T.Underlying().(*types.Slice).Elem()
 	if !elemTwoLevel(ea) {
 		e.fail("range equality needs scalar elements")
 	}
-	h := g.heapGet(e.cur, elemFam(ea), g.elemHeapSort(ea))
-	k := g.nm("k")
-	body := sImp(sAnd(sApp("bvsle", bv64(0), k), sApp("bvslt", k, a.Sub[2].Term)),
-		sEq(sSel(sSel(h, a.Sub[0].Term), sApp("bvadd", a.Sub[1].Term, k)), sSel(sSel(h, b.Sub[0].Term), sApp("bvadd", b.Sub[1].Term, k))))
-	return sAnd(sEq(a.Sub[2].Term, b.Sub[2].Term), fmt.Sprintf("(forall ((%s (_ BitVec 64))) %s)", k, body))
+	if sliceEqExpr == nil {
+		x, err := parseExpr("len($x) == len($y) && (forall k int :: 0 <= k && k < len($x) ==> $x[k] == $y[k])")
+		if err != nil {
+			panic(err)
+		}
+		sliceEqExpr = x
+	}
+	sub := e.child()
+	sub.vars["$x"], sub.vars["$y"] = a, b
+	return sub.evalBool(sliceEqExpr)
+}
+
+// specAssume: assume a contract-language fact written over placeholder variables ($name).
+func (g *Gen) specAssume(reach string, st *State, vars map[string]*SVal, text string) {
+	x, err := parseExpr(text)
+	if err != nil {
+		panic(err)
+	}
+	env := &Env{g: g, vars: vars, cur: st, old: st, reach: reach}
+	env.asAssume(reach)
+	g.assume(reach, env.evalBool(x))
 }
 
 func (e *Env) sel(x *ESel) *SVal {
@@ -579,6 +663,9 @@ func (e *Env) index(x *EIndex) *SVal {
 			i = g.constVal(tInt, i.Const)
 		}
 		et := v.T.Underlying().(*types.Slice).Elem()
+		if g.inQuant == 0 && i.Const == nil {
+			g.addNamed(i) // index terms of contracts are instantiation candidates
+		}
 		p := g.sliceElemAddr(v, idx64(i))
 		return g.load(e.cur, p, et)
 	case KArray:
@@ -686,10 +773,44 @@ func (e *Env) quant(x *EQuant) *SVal {
 		}
 		return mkBool(sub.evalBool(x.Body))
 	}
+	// exists to be proved (or forall that is assumed false): offer ground witnesses
+	if ((!x.Forall && tp > 0) || (x.Forall && tp < 0 && e.mode == 2)) && len(x.Vars) == 1 && !x.Forall {
+		srt := g.W.scalarSort(ts[0])
+		var alts []string
+		n := 0
+		for _, cand := range g.named[srt] {
+			if cand.origin != "" && cand.origin != g.curOrigin {
+				continue
+			}
+			if n >= 12 {
+				break
+			}
+			n++
+			w := e.child()
+			w.vars[x.Vars[0].Name] = scalar(ts[0], kindOf(ts[0]), cand.term)
+			func() {
+				defer func() {
+					if r := recover(); r != nil {
+						if _, ok := r.(specErr); !ok {
+							panic(r)
+						}
+					}
+				}()
+				alts = append(alts, w.evalBool(x.Body))
+			}()
+		}
+		if len(alts) > 0 {
+			plain := *e
+			plain.mode = 0
+			rest := plain.quant(x)
+			return mkBool(sOr(append(alts, rest.Term)...))
+		}
+	}
 	sub := e.child()
 	var binders []string
 	var qh *QHyp
-	if x.Forall && tp < 0 && e.mode == 1 && !e.noInst {
+	negHyp := !x.Forall && tp > 0 && e.mode == 1 && !e.noInst
+	if (x.Forall && tp < 0 && e.mode == 1 && !e.noInst) || negHyp {
 		capt := e.child()
 		capt.cur = g.clone(e.cur)
 		if e.old != nil {
@@ -702,7 +823,7 @@ func (e *Env) quant(x *EQuant) *SVal {
 		if g.asmSeqOverride > 0 {
 			sq = g.asmSeqOverride
 		}
-		qh = &QHyp{vars: x.Vars, types: ts, body: x.Body, env: capt, guard: e.guard, reads: map[int][]readRec{}, done: map[string]bool{}, text: x.exprString(), seq: sq}
+		qh = &QHyp{vars: x.Vars, types: ts, body: x.Body, env: capt, guard: e.guard, reads: map[int][]readRec{}, done: map[string]bool{}, text: x.exprString(), seq: sq, negate: negHyp}
 	}
 	for i, qv := range x.Vars {
 		n := g.nm("q." + qv.Name)
@@ -851,6 +972,8 @@ func (e *Env) call(x *ECall) *SVal {
 			v := e.eval(x.Args[0])
 			t := e.typeArg(x.Args[1])
 			return mkBool(sEq(v.Sub[0].Term, bvLit(big.NewInt(int64(g.W.typeTag(t))), 32)))
+		case "addr": // addr(x): the address of location x
+			return e.evalLoc(x.Args[0])
 		case "samearray":
 			a, b := e.eval(x.Args[0]), e.eval(x.Args[1])
 			return mkBool(sEq(a.Sub[0].Term, b.Sub[0].Term))
@@ -1018,11 +1141,100 @@ func (e *Env) callPure(pf *PureFn, args []Expr) *SVal {
 		}
 		return scalar(rt, kindOf(rt), sApp(name, fl...))
 	}
+	if pf.Opaque {
+		return e.callOpaque(pf, penv, argVals, rt)
+	}
 	r := penv.eval(pf.Body)
 	if r.T == nil && r.Const != nil {
 		r = g.constVal(rt, r.Const)
 	}
 	return r
+}
+
+// callOpaque: an opaque spec function is an uninterpreted application over its arguments and the
+// heap versions its body reads; where revealed, the definition is added for this application.
+func (e *Env) callOpaque(pf *PureFn, penv *Env, argVals []*SVal, rt types.Type) *SVal {
+	g := e.g
+	if !isScalarType(rt) {
+		e.fail("opaque function %s must have a scalar result", pf.Name)
+	}
+	// probe: which heaps does the body read (for these arguments' shapes)?
+	var probed []string
+	saveProbe := g.heapProbe
+	g.heapProbe = &probed
+	probeEnv := *penv
+	probeEnv.mode, probeEnv.pol = 0, 0
+	g.inQuant++ // no fresh symbols, no definitions: a dry run
+	func() {
+		defer func() {
+			if r := recover(); r != nil {
+				if _, ok := r.(specErr); !ok {
+					g.inQuant--
+					g.heapProbe = saveProbe
+					panic(r)
+				}
+			}
+		}()
+		probeEnv.eval(pf.Body)
+	}()
+	g.inQuant--
+	g.heapProbe = saveProbe
+	seen := map[string]bool{}
+	var heaps []string
+	for _, h := range probed {
+		if !seen[h] {
+			seen[h] = true
+			heaps = append(heaps, h)
+		}
+	}
+	sort.Strings(heaps)
+	var fl, sorts []string
+	for _, v := range argVals {
+		fl = append(fl, flatten(v)...)
+		for _, l := range g.W.leaves(v.T) {
+			sorts = append(sorts, string(l.Sort))
+		}
+	}
+	for _, h := range heaps {
+		srt := g.heapSort[h]
+		fl = append(fl, g.heapGet(e.cur, h, srt))
+		sorts = append(sorts, string(srt))
+	}
+	name := sym("opq_" + pf.Name)
+	g.declareUF(name, "("+strings.Join(sorts, " ")+") "+string(g.W.scalarSort(rt)))
+	app := name
+	if len(fl) > 0 {
+		app = sApp(name, fl...)
+	}
+	res := scalar(rt, kindOf(rt), app)
+	if g.reveals[pf.Name] && g.inQuant == 0 {
+		key := app
+		if g.opaqueDone == nil {
+			g.opaqueDone = map[string]bool{}
+		}
+		if !g.opaqueDone[key] {
+			g.opaqueDone[key] = true
+			saveOv, saveOrigin := g.asmSeqOverride, g.curOrigin
+			// definitional: valid everywhere
+			if kindOf(rt) == KBool {
+				pos := *penv
+				pos.mode, pos.pol, pos.guard, pos.noInst = 1, 1, app, false
+				t1 := pos.evalBool(pf.Body)
+				neg := *penv
+				neg.mode, neg.pol, neg.guard, neg.noInst = 1, -1, sNot(app), false
+				t2 := neg.evalBool(pf.Body)
+				for _, c := range splitAnd(t1) {
+					g.addAxiom(sImp(app, c))
+				}
+				g.addAxiom(sImp(sNot(app), sNot(t2)))
+			} else {
+				r := penv.eval(pf.Body)
+				g.addAxiom(sEq(app, r.Term))
+			}
+			g.asmSeqOverride, g.curOrigin = saveOv, saveOrigin
+		}
+	}
+	return res
 }
 
 // callGo executes a Go function symbolically for its value (specification use).
@@ -1150,7 +1362,7 @@ func (e *Env) evalMod(x Expr) []*modItem {
 		}
 	case *EStar:
 		v := e.tryEval(x.X)
-		if v == nil {
+		if v == nil || v.K == KArray {
 			v = e.evalLoc(x.X)
 		}
 		switch v.K {
